@@ -12,10 +12,10 @@ from .. import observe as O
 REGULAR = ["a", "a a", "a*", "a a*", "(a a)*", "$", "b", "a|b", "(a|b)*", "a b", "a a a", "b*"]
 
 
-def lib_rules(case):
+def lib_rules(case, swapped=False):
     from pyformlang.indexed_grammar import EndRule, ProductionRule, ConsumptionRule, DuplicationRule
     out = []
-    for r in RI_rules(case):
+    for r in (GI.ref_rules(case, GI.NT_SWAPPED) if swapped else RI_rules(case)):
         if r[0] == "end":
             out.append(EndRule(r[1], r[2]))
         elif r[0] == "prod":
@@ -152,12 +152,37 @@ class C17(Prop):
                     ctx.expect(r2.value is want, "C17.is_empty.repeat", order=order, optim=optim, got=r2.value, want=want)
                 if optim in (0, 7):
                     g2 = ctx.call(build)
-                    u = ctx.call(g2.value.remove_useless_rules)
-                    if ctx.returns(u, "C17.remove_useless_rules", order=order, optim=optim):
-                        r3 = ctx.call(u.value.is_empty)
-                        if ctx.returns(r3, "C17.remove_useless_rules.is_empty", order=order, optim=optim):
-                            ctx.expect(r3.value is want, "C17.remove_useless_rules.is_empty", order=order, optim=optim,
-                                       got=r3.value, want=want)
+                    self._useless(ctx, g2.value, want, order=order, optim=optim)
+                if optim in (0, 7) and oi == 0 and n:
+                    # the rule list with every rule listed twice (fresh objects)
+                    def build_twice():
+                        return IndexedGrammar(Rules(lib_rules(case[1]) + lib_rules(case[1]), optim))
+                    g = ctx.call(build_twice)
+                    if ctx.returns(g, "C17.build", order="every rule twice", optim=optim):
+                        r = ctx.call(g.value.is_empty)
+                        if ctx.returns(r, "C17.is_empty", order="every rule twice", optim=optim):
+                            ctx.expect(r.value is want, "C17.is_empty", order="every rule twice", optim=optim,
+                                       got=r.value, want=want)
+                if optim in (0, 7) and oi == 0:
+                    # the same grammar with the start variable called A (and another non-terminal called S)
+                    def build_swapped():
+                        rl = lib_rules(case[1], swapped=True)
+                        return IndexedGrammar(Rules([rl[i] for i in order], optim), "A")
+                    g = ctx.call(build_swapped)
+                    if not ctx.returns(g, "C17.build", order=order, optim=optim, start="A"):
+                        continue
+                    r = ctx.call(g.value.is_empty)
+                    if ctx.returns(r, "C17.is_empty", order=order, optim=optim, start="A"):
+                        ctx.expect(r.value is want, "C17.is_empty", order=order, optim=optim, start="A", got=r.value, want=want)
+                    self._useless(ctx, ctx.call(build_swapped).value, want, order=order, optim=optim, start="A")
+
+    @staticmethod
+    def _useless(ctx, g, want, **kw):
+        u = ctx.call(g.remove_useless_rules)
+        if ctx.returns(u, "C17.remove_useless_rules", **kw):
+            r3 = ctx.call(u.value.is_empty)
+            if ctx.returns(r3, "C17.remove_useless_rules.is_empty", **kw):
+                ctx.expect(r3.value is want, "C17.remove_useless_rules.is_empty", got=r3.value, want=want, **kw)
 
     def _intersection(self, case, ref, ctx, Rules, IndexedGrammar):
         from pyformlang.regular_expression import Regex
@@ -170,17 +195,19 @@ class C17(Prop):
                 continue        # quick: every second regular language
             nfa = RX.to_nfa(RX.parse(text))
             want_empty = not RI.intersect_regular(rg, nfa)
-            for form in ("regex", "dfa", "enfa"):
-                if ctx.variant == "few" and form != "regex" and k % 4:
+            for form in ("regex", "dfa", "enfa", "regex/start=A"):
+                if ctx.variant == "few" and form in ("dfa", "enfa") and k % 4:
                     continue
+                swapped = form.endswith("start=A")
 
                 def operand():
                     r = Regex(text)
-                    if form == "regex":
+                    if form.startswith("regex"):
                         return r
                     e = r.to_epsilon_nfa()
                     return e.to_deterministic() if form == "dfa" else e
-                g = IndexedGrammar(Rules(lib_rules(case[1])))
+                g = IndexedGrammar(Rules(lib_rules(case[1], swapped)), "A") if swapped else \
+                    IndexedGrammar(Rules(lib_rules(case[1])))
                 op = ctx.call(operand)
                 if not ctx.returns(op, "C17.intersection.operand", regular=text, form=form):
                     continue
